@@ -10,6 +10,7 @@ section => error.
 import json
 
 from mon import refbufr as R
+from mon import handover
 from mon.compare import diff_message, jsonable
 from mon.gen import cases
 from mon.gen.shapes import EdgePolicy
@@ -241,6 +242,9 @@ def decoder_side(ctx, dec, msg, cell, surplus, trailer):
         return None
     nz = any(surplus.values())
     ctx.count('dec_surplus' if nz else 'dec_plain')
+    # a rendered object carries the declared lengths: encoders that recompute and encoders that honour them can be given the
+    # same object in any order
+    handover.on_message(ctx, b, spec, site='surplus' if nz else 'plain', p=0.25, light=True)
     if trailer:
         ctx.count('dec_trailing')
     ctx.evaluated(('dec', tuple(sorted(surplus.items())), trailer.hex()) + tuple(cell), nz or bool(trailer) or cell[0] % 8 != 0,
